@@ -121,6 +121,8 @@ class SymBool:
         return None
 
     def __and__(self, o):
+        if isinstance(o, bool):
+            return self if o else False
         e = self._co(o)
         if e is None:
             return NotImplemented
@@ -129,6 +131,8 @@ class SymBool:
     __rand__ = __and__
 
     def __or__(self, o):
+        if isinstance(o, bool):
+            return True if o else self
         e = self._co(o)
         if e is None:
             return NotImplemented
@@ -137,6 +141,8 @@ class SymBool:
     __ror__ = __or__
 
     def __xor__(self, o):
+        if isinstance(o, bool):
+            return ~self if o else self
         e = self._co(o)
         if e is None:
             return NotImplemented
@@ -148,12 +154,16 @@ class SymBool:
         return mk_bool(z3.Not(self.expr))
 
     def __eq__(self, o):
+        if isinstance(o, bool):
+            return self if o else ~self
         e = self._co(o)
         if e is None:
             return NotImplemented
         return mk_bool(self.expr == e)
 
     def __ne__(self, o):
+        if isinstance(o, bool):
+            return ~self if o else self
         e = self._co(o)
         if e is None:
             return NotImplemented
@@ -175,10 +185,6 @@ class SymBool:
 
 
 def mk_bool(expr):
-    if z3.is_true(expr):
-        return True
-    if z3.is_false(expr):
-        return False
     return SymBool(expr)
 
 
@@ -207,9 +213,9 @@ class SymInt:
         if isinstance(o, SymInt):
             return o.expr, o.iv
         if isinstance(o, bool):
-            return z3.IntVal(int(o)), (int(o), int(o))
+            return _intval(int(o)), (int(o), int(o))
         if isinstance(o, int):
-            return z3.IntVal(o), (o, o)
+            return _intval(o), (o, o)
         if isinstance(o, SymBool):
             return z3.If(o.expr, 1, 0), (0, 1)
         return None
@@ -414,9 +420,19 @@ def _OP_NE(a, b):
 
 
 def mk_int(expr, iv=None):
-    if z3.is_int_value(expr):
-        return expr.as_long()
     return SymInt(expr, iv)
+
+
+_IVC = {}
+
+
+def _intval(o):
+    v = _IVC.get(o)
+    if v is None:
+        v = z3.IntVal(o)
+        if -4096 <= o <= 4096:
+            _IVC[o] = v
+    return v
 
 
 class SymFloat:
@@ -570,7 +586,7 @@ class SymFloat:
                     ok = True
             if not ok:
                 raise Inconclusive("float-inexact: comparison of rounded quotient not certified")
-        return mk_bool(z3.simplify(op(self.expr, o.expr)))
+        return mk_bool(op(self.expr, o.expr))
 
     def __lt__(self, o):
         return self._cmp(o, _OP_LT)
@@ -598,7 +614,7 @@ class SymFloat:
         if self.iv is not None:
             iv = (math.floor(self.iv[0]) if self.iv[0] >= 0 else -math.floor(-self.iv[0]),
                   math.floor(self.iv[1]) if self.iv[1] >= 0 else -math.floor(-self.iv[1]))
-        return mk_int(z3.simplify(z3.If(e >= 0, z3.ToInt(e), -z3.ToInt(-e))), iv)
+        return mk_int(z3.If(e >= 0, z3.ToInt(e), -z3.ToInt(-e)), iv)
 
     def __round__(self, n=None):
         if n is not None:
@@ -612,11 +628,11 @@ class SymFloat:
         iv = None
         if self.iv is not None:
             iv = (math.floor(self.iv[0]), math.ceil(self.iv[1]))
-        return mk_int(z3.simplify(res), iv)
+        return mk_int(res, iv)
 
     def is_integer(self):
         self._need_exact("is_integer")
-        return mk_bool(z3.simplify(z3.ToReal(z3.ToInt(self.expr)) == self.expr))
+        return mk_bool(z3.ToReal(z3.ToInt(self.expr)) == self.expr)
 
     def _concrete(self, why):
         self._need_exact(why)
@@ -788,31 +804,29 @@ class Engine:
     def _learn(self, cond, taken):
         self.keep.append(cond)
         self.known[cond.get_id()] = taken
-        n = z3.simplify(z3.Not(cond))
-        self.keep.append(n)
-        self.known[n.get_id()] = not taken
 
     # ---- branching
     def branch(self, cond, value=None, force_entry=False) -> bool:
-        cond = z3.simplify(cond)
+        """Decide a symbolic condition (raw z3 Bool term).  Conditions are keyed by the hash-consed
+        identity of the *unsimplified* term, which is deterministic for a deterministic program."""
+        cid = cond.get_id()
         if not force_entry:
+            k = self.known.get(cid)
+            if k is not None:
+                return k
             if z3.is_true(cond):
                 return True
             if z3.is_false(cond):
                 return False
-        cid = cond.get_id()
-        k = self.known.get(cid)
-        if k is not None and not force_entry:
-            return k
         if self.pos < len(self.prefix):
-            kind, taken, tag, val = self.prefix[self.pos]
+            entry = self.prefix[self.pos]
+            kind, taken, tag, val = entry
             if kind not in ("D", "F"):
                 raise HarnessError(f"non-determinism: expected {kind} entry at {self.pos}, got decision")
-            if self.verify_tags and tag != _tag(cond):
+            if self.verify_tags and tag != cond.hash():
                 raise HarnessError(f"non-determinism: decision {self.pos} condition differs on replay")
             self.pos += 1
             self.stats.replayed_entries += 1
-            entry = self.prefix[self.pos - 1]
             if kind == "D":
                 self._push_entry(entry, cond if taken else z3.Not(cond))
             else:
@@ -827,7 +841,7 @@ class Engine:
         self.solver.add(other)
         r = self._check()
         self.solver.pop()
-        tag = _tag(cond)
+        tag = cond.hash()
         if r == z3.unknown:
             raise Inconclusive("solver unknown (branch feasibility): " + self.solver.reason_unknown())
         if r == z3.sat:
@@ -851,7 +865,6 @@ class Engine:
             return
         if isinstance(cond, SymBool):
             cond = cond.expr
-        cond = z3.simplify(cond)
         if z3.is_true(cond):
             return
         if z3.is_false(cond):
@@ -861,7 +874,7 @@ class Engine:
             return
         if k is False:
             raise PathAbort()
-        tag = _tag(cond)
+        tag = cond.hash()
         entry = ("A", True, tag, None)
         if self.pos < len(self.prefix):
             if self.prefix[self.pos][0] != "A" or (self.verify_tags and self.prefix[self.pos][2] != tag):
@@ -881,7 +894,6 @@ class Engine:
             self.ensure_model()
 
     def concretise(self, expr, why="") -> int:
-        expr = z3.simplify(expr)
         if z3.is_int_value(expr):
             return expr.as_long()
         eid = expr.get_id()
@@ -902,7 +914,6 @@ class Engine:
                 return v
 
     def concretise_real(self, expr, why="") -> Fraction:
-        expr = z3.simplify(expr)
         if z3.is_rational_value(expr):
             return Fraction(expr.numerator_as_long(), expr.denominator_as_long())
         eid = expr.get_id()
